@@ -269,3 +269,7 @@ impl<T: Config> SpectatorSession<T> {
         }
     }
 }
+
+#[cfg(ggrs_verif)]
+#[path = "../verif/spec.rs"]
+mod verif_spec;
